@@ -186,6 +186,7 @@ func (f *failReader) Read(p []byte) (int, error) {
 
 // faultWriter accepts everything until call number at.
 type faultWriter struct {
+	stall   <-chan struct{} // non-nil: every Write waits until it is closed
 	yield   int
 	mu      sync.Mutex
 	buf     *bytes.Buffer
@@ -197,6 +198,9 @@ type faultWriter struct {
 }
 
 func (w *faultWriter) Write(p []byte) (int, error) {
+	if w.stall != nil {
+		<-w.stall
+	}
 	yieldNow(w.yield)
 	w.mu.Lock()
 	defer w.mu.Unlock()
@@ -309,9 +313,24 @@ func handleReq(rq wproto.Req) (rp wproto.Rep) {
 		defer runtime.GOMAXPROCS(runtime.GOMAXPROCS(rq.Procs))
 	}
 	hc := newHookCtl(rq)
-	if rq.Record || rq.Delays != 0 || len(rq.Plan) > 0 {
+	if rq.Record || rq.Delays != 0 || len(rq.Plan) > 0 || rq.Stall != nil {
 		hc.install()
 		defer hc.uninstall()
+	}
+	var stallCh chan struct{}
+	var lastSeen chan struct{}
+	if rq.Stall != nil {
+		stallCh, lastSeen = make(chan struct{}), make(chan struct{})
+		fw.stall = stallCh
+		sends := 0
+		hc.watch = func(point, item string) {
+			if point == "split.send.pre" {
+				sends++
+				if sends == rq.Stall.Blocks {
+					close(lastSeen)
+				}
+			}
+		}
 	}
 	var cancelUser func()
 	if rq.Massive {
@@ -361,6 +380,9 @@ func handleReq(rq wproto.Req) (rp wproto.Rep) {
 	visits := 0
 	var walk []string // callbacks may still arrive while a cancelled call is winding down: never touch rp from them
 	cb := func(wn *gtree.WalkerNode) error {
+		if stallCh != nil {
+			<-stallCh
+		}
 		yieldNow(rq.Yield)
 		mu.Lock()
 		defer mu.Unlock()
@@ -395,6 +417,28 @@ func handleReq(rq wproto.Req) (rp wproto.Rep) {
 		if jail != "" {
 			os.WriteFile(filepath.Join(jail, f), []byte("x"), 0o644)
 		}
+	}
+	var stallUnforced atomic.Bool
+	if rq.Stall != nil {
+		go func() {
+			select {
+			case <-lastSeen:
+				time.Sleep(50 * time.Millisecond) // the splitter goes from its hook into the hand-over
+				switch rq.Stall.Then {
+				case "cancel":
+					if cancelUser != nil {
+						cancelUser()
+					}
+				case "wfail":
+					fw.mu.Lock()
+					fw.fault = &wproto.WFault{How: "fail", At: 1}
+					fw.mu.Unlock()
+				}
+			case <-time.After(10 * time.Second):
+				stallUnforced.Store(true)
+			}
+			close(stallCh)
+		}()
 	}
 	start := time.Now()
 	o := real.Guard(func() error {
@@ -531,7 +575,7 @@ func handleReq(rq wproto.Req) (rp wproto.Rep) {
 		}
 	}
 	hc.mu.Lock()
-	rp.Events, rp.Unforced, rp.PlanDone = append([]wproto.Event{}, hc.events...), hc.unforced, hc.planIdx
+	rp.Events, rp.Unforced, rp.PlanDone = append([]wproto.Event{}, hc.events...), hc.unforced || stallUnforced.Load(), hc.planIdx
 	hc.mu.Unlock()
 	if rq.Record || rq.Delays != 0 || len(rq.Plan) > 0 {
 		// goroutines still held at the gate, or still winding down, must not spill their hook events into
